@@ -520,6 +520,25 @@ fn gen_contexts(rng: &mut Rng, adversarial: bool) -> (Vec<(String, Value)>, Vec<
     (ctx, global)
 }
 
+/// names the generator assigns to (pool names, shadowed context names, loop variables)
+fn is_assignable(n: &str) -> bool {
+    POOL.contains(&n) || matches!(n, "s" | "i" | "g") || ((n.starts_with('x') || n.starts_with('k') || n.starts_with('e')) && n.len() == 2 && n.as_bytes()[1].is_ascii_digit())
+}
+
+/// A render-wide assignment inside a loop whose value reads an assigned name can carry a growing
+/// value from one iteration to the next (exponential work in the nesting depth): such programs are
+/// not generated, and a non-returning render of one (e.g. a shrink variant) is not a verdict
+fn has_growth_carrier(ss: &[St], in_loop: bool) -> bool {
+    ss.iter().any(|s| match s {
+        St::Set(_, e, true) if in_loop => ["p0", "p1", "p2", "p3", "s", "i", "g", "x0", "x1", "x2", "x3", "k0", "k1", "k2", "cap"].iter().any(|n| ex_mentions(e, n)),
+        St::SetBlock(_, _, _, true) if in_loop => true,
+        St::SetBlock(_, _, b, _) | St::FilterSection(_, b) => has_growth_carrier(b, in_loop),
+        St::If(br, els) => br.iter().any(|(_, bd)| has_growth_carrier(bd, in_loop)) || els.as_ref().is_some_and(|e| has_growth_carrier(e, in_loop)),
+        St::For(_, _, _, b, e) => has_growth_carrier(b, true) || has_growth_carrier(e, in_loop),
+        _ => false,
+    })
+}
+
 #[derive(Clone)]
 struct Scope {
     vars: Vec<(String, K)>,
@@ -885,12 +904,21 @@ impl<'a> Gen<'a> {
                     };
                     let k = *self.rng.pick(&[K::Int, K::Str, K::Str, K::Bool, K::ArrInt, K::Undef, K::NoneK]);
                     let k = if k == K::Undef && !self.rng.chance(1, 4) { K::Int } else { k };
-                    let e = self.expr(k, 2, &sc);
+                    // an assignment that survives the iteration must not feed on assigned names, or a
+                    // few nested loops make the value (and the render time) grow exponentially
+                    let e = if global && sc.loop_depth > 0 {
+                        let mut frozen = sc.clone();
+                        frozen.vars.retain(|(n, _)| !is_assignable(n));
+                        self.expr(k, 2, &frozen)
+                    } else {
+                        self.expr(k, 2, &sc)
+                    };
                     out.push(St::Set(name.clone(), e, global));
                     sc.bind(&name, k);
                 }
                 6 => {
-                    let global = self.rng.chance(1, 4);
+                    // (block form of set_global only outside loops, for the same reason)
+                    let global = sc.loop_depth == 0 && self.rng.chance(1, 4);
                     self.count("stmt.set_block");
                     let name = self.rng.pick(&POOL).to_string();
                     let filters: Vec<String> = (0..self.rng.below(3)).map(|_| self.rng.pick(&["upper", "lower", "trim"]).to_string()).collect();
@@ -2268,6 +2296,10 @@ fn confirm_hang(case: &Case) -> bool {
 /// A case exceeded the wall-clock cap: believe it only after the confirmation run; otherwise count it
 /// as slow under load and go on waiting for it
 fn report_hang(case: &Case, what: &str) {
+    if case.templates.iter().any(|(_, b)| has_growth_carrier(b, false)) {
+        SLOW_UNDER_LOAD.fetch_add(1, std::sync::atomic::Ordering::SeqCst);
+        return;
+    }
     if !confirm_hang(case) {
         SLOW_UNDER_LOAD.fetch_add(1, std::sync::atomic::Ordering::SeqCst);
         return;
